@@ -45,6 +45,8 @@ var checks = map[string]checkDef{
 	"C18": {pkg: "verif/mc/checks/c18", shapes: []string{"mini", "person", "document", "flat3"}},
 }
 
+var slotLocks []*os.File
+
 var mcDir = func() string {
 	if d := os.Getenv("VERIF_MC"); d != "" {
 		return d
@@ -123,8 +125,31 @@ func prepare(id string, tag string) (string, string) {
 	if _, err := os.Stat(filepath.Join(mcDir, strings.TrimPrefix(def.pkg, "verif/mc/"))); err != nil {
 		die("check %s is not built yet (%v)", id, err)
 	}
-	runName := fmt.Sprintf("%s-%s-%d", strings.ToLower(id), tag, os.Getpid())
+	// Run directories are import paths of the generated packages, and the Go
+	// build cache is keyed by import path: a per-process name would add a
+	// fresh copy of every generated package to the cache on every run.  So
+	// directories come from a small set of reusable slots, each guarded by a
+	// file lock for the life of this process.
+	runName := ""
+	os.MkdirAll(filepath.Join(mcDir, "work", "slots"), 0o755)
+	for slot := 0; slot < 64 && runName == ""; slot++ {
+		name := fmt.Sprintf("%s-%s-s%d", strings.ToLower(id), tag, slot)
+		f, err := os.OpenFile(filepath.Join(mcDir, "work", "slots", name+".lock"), os.O_CREATE|os.O_RDWR, 0o644)
+		if err != nil {
+			continue
+		}
+		if syscall.Flock(int(f.Fd()), syscall.LOCK_EX|syscall.LOCK_NB) != nil {
+			f.Close()
+			continue
+		}
+		slotLocks = append(slotLocks, f) // held until exit
+		runName = name
+	}
+	if runName == "" {
+		runName = fmt.Sprintf("%s-%s-%d", strings.ToLower(id), tag, os.Getpid())
+	}
 	runDir := filepath.Join(mcDir, "work", runName)
+	os.RemoveAll(runDir)
 	if err := os.MkdirAll(filepath.Join(runDir, "bin"), 0o755); err != nil {
 		die("%v", err)
 	}
